@@ -600,6 +600,52 @@ var mutations = []mutation{
 		}
 		return ""
 	}},
+	{"nested-name-clash", func(r *rng, n *pb.Network, s *sites) string {
+		// a multiplexed signal takes the name of a signal at another level of the same message
+		cands := []*pb.Message{}
+		for _, m := range s.msgs {
+			for _, x := range m.Signals {
+				if x.GetMultiplexer() != nil && len(x.GetMultiplexer().Signals) > 0 {
+					cands = append(cands, m)
+					break
+				}
+			}
+		}
+		if len(cands) == 0 {
+			return ""
+		}
+		m := cands[r.below(len(cands))]
+		type lv struct {
+			sig   *pb.Signal
+			level int
+			top   int
+		}
+		all := []lv{}
+		var walk func(x *pb.Signal, level, top int)
+		walk = func(x *pb.Signal, level, top int) {
+			all = append(all, lv{x, level, top})
+			if mx := x.GetMultiplexer(); mx != nil {
+				for _, c := range mx.Signals {
+					walk(c, level+1, top)
+				}
+			}
+		}
+		for i, x := range m.Signals {
+			walk(x, 0, i)
+		}
+		for t := 0; t < 20; t++ {
+			a, b := all[r.below(len(all))], all[r.below(len(all))]
+			if a.level == 0 || a.sig == b.sig || a.level == b.level && a.top == b.top || a.sig.Entity == nil || b.sig.Entity == nil {
+				continue
+			}
+			if a.sig.Entity.EntityId == b.sig.Entity.EntityId {
+				continue
+			}
+			a.sig.Entity.Name = b.sig.Entity.Name
+			return fmt.Sprintf("multiplexed signal at depth %d renamed to the name of a signal at depth %d of the same message", a.level, b.level)
+		}
+		return ""
+	}},
 	{"drop-or-add-ref", func(r *rng, n *pb.Network, s *sites) string {
 		if len(s.payloads) == 0 {
 			return ""
